@@ -36,6 +36,35 @@ CONFIGS = {
     "office001": [dict(transformer_cap=50), dict(transformer_cap=25), dict(transformer_cap=100.1)],
 }
 KIND = {"caltech": 0, "jpl": 1, "office001": 2}
+# the factories' `voltage` argument (voltage at the EVSEs) must not influence the transformer limits,
+# which are rated at the nominal 120 V line-to-neutral
+VOLTAGES = [200, 120, 240]
+
+
+def variants(site):
+    """[(basic_evse, kwargs)]: every EVSE type x capacity setting at the default voltage, plus
+    non-default `voltage` arguments spread over EVSE types and capacity settings"""
+    caps = CONFIGS[site]
+    out = [(basic, dict(kw)) for basic in (False, True) for kw in caps]
+    for i, v in enumerate(VOLTAGES):
+        out.append((False, dict(caps[i % 3], voltage=v)))
+        out.append((True, dict(caps[(i + 1) % 3], voltage=v)))
+    return out
+
+
+def site_name(site, idx):
+    return "site_%s_%d" % (site, idx)
+
+
+def jpl_calls_use_default_secondary_voltage(repo):
+    """AST check of jpl_acn: every call of _delta_wye_transformer passes (name, currents, cap) only, so the
+    secondary voltage is the literal default of the helper (which the SiteLim anchor inlines)"""
+    import ast
+    with open(os.path.join(repo, "acnportal/acnsim/network/sites/jpl_acn.py")) as f:
+        tree = ast.parse(f.read())
+    calls = [n for n in ast.walk(tree) if isinstance(n, ast.Call) and isinstance(n.func, ast.Name)
+             and n.func.id == "_delta_wye_transformer"]
+    return bool(calls) and all(len(c.args) == 3 and not c.keywords for c in calls)
 
 
 # ground truth written down from the site documentation (station lists of the Caltech pods, JPL
@@ -136,6 +165,7 @@ def classify(site, names, ids, kwargs):
 
 def dump_one(site, basic, kwargs, idx):
     net = build(site, basic, kwargs)
+    kwargs = {k: v for k, v in kwargs.items() if k != "voltage"}
     ids = list(net.station_ids)
     A = net.constraint_matrix
     rows = [] if A is None else [[float(x) for x in r] for r in A]
@@ -144,7 +174,7 @@ def dump_one(site, basic, kwargs, idx):
     volts = [float(x) for x in net._voltages]
     names = list(net.constraint_index)
     trs, prims, pans, pods, unknown = classify(site, names, ids, kwargs)
-    name = "site_%s_%s_%d" % (site, "basic" if basic else "real", idx)
+    name = site_name(site, idx)
     cis = [(math.cos(math.radians(p)), math.sin(math.radians(p))) for p in phases]
     text = "Definition %s : site := {|\n" % name
     text += "  s_kind := %d%%nat;\n" % KIND[site]
@@ -202,22 +232,29 @@ def generate(repo):
     import io
     import contextlib
     for site in ("caltech", "jpl", "office001"):
-        for basic in (False, True):
-            for idx, kwargs in enumerate(CONFIGS[site]):
-                try:
-                    with contextlib.redirect_stdout(io.StringIO()):
-                        name, text, info = dump_one(site, basic, kwargs, idx)
-                except Exception as e:  # noqa  -- fail closed: the generated file does not compile
-                    name = "site_%s_%s_%d" % (site, "basic" if basic else "real", idx)
-                    text = "Definition %s : site := factory_raised_%s.\n" % (name, type(e).__name__)
-                    info = dict(name=name, error="%s: %s" % (type(e).__name__, e))
-                out += text + "\n"
-                names.append(name)
-                groups.setdefault(site, []).append(name)
-                infos.append(info)
+        for idx, (basic, kwargs) in enumerate(variants(site)):
+            try:
+                with contextlib.redirect_stdout(io.StringIO()):
+                    name, text, info = dump_one(site, basic, kwargs, idx)
+                info["params"] = kwargs
+            except Exception as e:  # noqa  -- fail closed: the generated file does not compile
+                name = site_name(site, idx)
+                text = "Definition %s : site := factory_raised_%s.\n" % (name, type(e).__name__)
+                info = dict(name=name, error="%s: %s" % (type(e).__name__, e))
+            out += "(* %s(basic_evse=%s, %s) *)\n" % (site, basic, ", ".join("%s=%r" % kv for kv in kwargs.items()))
+            out += text + "\n"
+            names.append(name)
+            groups.setdefault(site, []).append(name)
+            infos.append(info)
     for site, ns in groups.items():
         out += "Definition sites_%s : list site := %s.\n" % (site, lst(ns))
     out += "Definition all_sites : list site := sites_caltech ++ sites_jpl ++ sites_office001.\n"
+    try:
+        ok = jpl_calls_use_default_secondary_voltage(repo)
+        out += ("(* AST check of jpl_acn: every _delta_wye_transformer call passes (name, currents, cap) only *)\n"
+                "Definition jpl_calls_use_default_secondary_voltage : bool := %s.\n" % ("true" if ok else "false"))
+    except Exception as e:  # noqa
+        out += "Definition jpl_calls_use_default_secondary_voltage : bool := ast_check_failed_%s.\n" % type(e).__name__
     return [("Sites.v", out, infos)]
 
 
